@@ -2,3 +2,4 @@
 //! Read-only accessors and constructors used by the /verif correspondence harness.
 //! Nothing here is reachable from the normal build.
 pub mod distro;
+pub mod sync;
